@@ -213,6 +213,21 @@ func c18once(c *c20ctx, calls int, expiring, zeroFirst bool) {
 }
 
 func c18retry(c *c20ctx, n int, withDelay bool) {
+	if !withDelay {
+		c18retryD(c, n, false, 3*unit)
+		return
+	}
+	// delays: a whole number of clock units, and two that are not (1.25 and 0.4 ms): the wait must
+	// be at least the delay as given, not the delay rounded to some timer resolution
+	for _, d := range []time.Duration{3 * unit, 1250 * time.Microsecond, 400 * time.Microsecond} {
+		if d != 3*unit && n > 3 {
+			continue
+		}
+		c18retryD(c, n, true, d)
+	}
+}
+
+func c18retryD(c *c20ctx, n int, withDelay bool, delay time.Duration) {
 	var pattern []bool // outcome of each callback invocation (true = success)
 	var times, ends []int64
 	var gotAttempts int
@@ -222,8 +237,12 @@ func c18retry(c *c20ctx, n int, withDelay bool) {
 	if withDelay {
 		fn = "RetryWithDelay"
 	}
-	const d = 3
+	d := int64(delay)
 	name := fmt.Sprintf("%s(n=%d)", fn, n)
+	if withDelay {
+		name = fmt.Sprintf("%s(n=%d, delay=%v)", fn, n, delay)
+	}
+	now := vrt.NowNanos // this scenario measures in nanoseconds
 	c.explore(name, 0, func() {
 		pattern, times, ends, errs = pattern[:0], times[:0], ends[:0], errs[:0]
 		cb := func() error {
@@ -248,7 +267,7 @@ func c18retry(c *c20ctx, n int, withDelay bool) {
 		}
 		r := gogu.RType[string]{Input: "in"}
 		if withDelay {
-			_, gotAttempts, gotErr = r.RetryWithDelay(n, d*unit, func(_ time.Duration, _ string) error { return cb() })
+			_, gotAttempts, gotErr = r.RetryWithDelay(n, delay, func(_ time.Duration, _ string) error { return cb() })
 		} else {
 			gotAttempts, gotErr = r.Retry(n, func(string) error { return cb() })
 		}
@@ -288,7 +307,7 @@ func c18retry(c *c20ctx, n int, withDelay bool) {
 		if withDelay {
 			for i := 1; i < len(times); i++ {
 				if times[i]-ends[i-1] < d {
-					return fn + "/attempts-closer-than-delay", fmt.Sprintf("attempts started at %v and ended at %v: attempt %d began %d after the previous one ended, want a wait of at least %d", times, ends, i+1, times[i]-ends[i-1], d)
+					return fn + "/attempts-closer-than-delay", fmt.Sprintf("attempts started at %v and ended at %v: attempt %d began %dns after the previous one ended, want a wait of at least %dns", times, ends, i+1, times[i]-ends[i-1], d)
 				}
 			}
 		}
